@@ -927,8 +927,9 @@ def term_str(term):
 def datasets(U, tier):
     if U == "U1":
         if tier == "quick":
-            # <=2 parents x <=2 children, every distribution; two children: only the skewed grandchild pattern
-            return [(k, d) for k, d in qw.u1_datasets(2, 2, 3, "cover2") if len(k[2]) < 2 or k[3] == (2, 2, None)]
+            # <=2 parents x <=2 children, every distribution; one grandchild pattern each (one child: one grandchild; two: skewed)
+            return [(k, d) for k, d in qw.u1_datasets(2, 2, 3, "cover2")
+                    if len(k[2]) == 0 or (len(k[2]) == 1 and k[3] == (1,)) or k[3] == (2, 2, None)]
         return [(k, d) for k, d in qw.u1_datasets(2, 3, 3, "cover2")]
     if U == "U2":
         return list(qw.u2_datasets(2, 2) if tier == "quick" else qw.u2_datasets(3, 2))
@@ -984,8 +985,8 @@ def run_shard(shard, tier, rec):
             rec.case((term, dkey), nontrivial=nontrivial)
             rec.outcome((U, term[1], outcome))
             rec.count("terms_with_%d_constructors" % n_constructors(term))
-            if nontrivial and (rec.evaluations % 7919) == 11:
-                rec.sample(dict(term=term_str(term), data=repr(dkey), rows=outcome[0]))
+            if nontrivial and outcome[0] >= 2 and n_constructors(term) >= 2 and (rec.evaluations % 1013) == 11:
+                rec.sample(dict(term=term_str(term), data=repr(dkey), rows_returned=outcome[0]))
             for kind, msg in problems:
                 if ("seen", kind, term) in rec._vsigs:
                     rec.count("violating_cases")
